@@ -511,6 +511,7 @@ func runCase(r *lib.Run, idx int, long bool) {
 			map[string]any{"script": s.opsString(), "op_index": i, "fault": fault, "differences(node vs twin)": d})
 		return false
 	}
+	faultedBefore := false
 	for i, o := range s.Ops {
 		fault, fc, fp, fr := "none", 0, 0, 0
 		c := counts[i]
@@ -536,8 +537,17 @@ func runCase(r *lib.Run, idx int, long bool) {
 			if e := apply(T, o); e != nil {
 				return
 			}
+			// a restart re-derives every in-memory structure from disk: whatever an earlier failed
+			// and retried operation left behind on disk shows now
+			if (o.Kind == "G" || o.Kind == "U") && faultedBefore {
+				r.Count("restarts_probed_after_an_earlier_fault", 1)
+				if !probeEq("after-restart-following-an-earlier-fault", i, "none") {
+					return
+				}
+			}
 			continue
 		}
+		faultedBefore = true
 		r.Count("faults_fired:"+o.Kind+":"+fault, 1)
 		if err == nil {
 			// the operation tolerated the fault: it must then have taken full effect
@@ -566,6 +576,15 @@ func runCase(r *lib.Run, idx int, long bool) {
 		}
 		if !probeEq("after-retry", i, fault) {
 			return
+		}
+	}
+	// ... and once more at the end of the script, after an ungraceful restart of both nodes
+	if faultedBefore {
+		if N.Restart(false) == nil && T.Restart(false) == nil {
+			r.Count("restarts_probed_after_an_earlier_fault", 1)
+			if !probeEq("after-final-ungraceful-restart", len(s.Ops)-1, "none") {
+				return
+			}
 		}
 	}
 	r.Count("scripts", 1)
